@@ -119,14 +119,16 @@ CHECKS = {
  'C15': dict(category='model_checking',
     text='REDUCED CLAIM (no threads). (1) Each analyze_for_* entry executed from MIR on a probe file with a symbolic file number and ARBITRARY iteration order of every '
          'HashSet/HashMap: all paths must return the same lines (17 detectors). (2) In the analyze_dir model the findings of a file are the same with and without '
-         'siblings / sub-directories, for every listing order and pattern order. (3) A syntactic scan of the MIR for global or thread-local state. (4) The compiled '
-         'code in ONE process: the same file analysed alone vs. after / interleaved with an equal-length file of different line structure, repeated, with patterns '
-         'reversed, after another category; a directory with equal-length siblings.',
+         'siblings / sub-directories, for every listing order and pattern order. (3) A scan of the MIR for statics / thread-locals / cells; if there are any, they are MODELLED (one frame of global cells per path): the probe is executed '
+         'from an arbitrary symbolic value of every scalar static (a verdict that depends on it is confirmed by a native history search before it is reported) and two '
+         'calls are executed on one path (equal-length re-layout first) with the second result compared to a fresh run. (4) The compiled code in ONE process: the same '
+         'file analysed alone vs. after / interleaved with an equal-length file of different line structure, after stress predecessors (deep, wide at every level, '
+         'unparsable), repeated, with patterns reversed, after another category; a directory with equal-length siblings.',
     note='Concurrent calls from several threads and state inside the regex crate are outside the claim (neither engine models threads): stated in DESIGN.md section 7.',
-    technique='symbolic execution of MIR with nondeterministic container iteration + native call-sequence differential', design='6/C15, 7'),
+    technique='symbolic execution of MIR with nondeterministic container iteration and modelled process-wide state + native call-sequence differential', design='6/C15, 7, 10.8'),
  'C16': dict(
     text='analyze_dir (3 categories) executed from MIR on a directory containing a file whose NAME is symbolic: 4..8 (thorough 1..10) characters, each a symbolic index '
-         'into an alphabet with upper/lower pairs, dots, a space and a non-ASCII letter; suffix / containment / case folding are bit-vector constraints, so Z3 decides '
+         'into an alphabet with upper/lower pairs, dots, a space and 2-, 3- and 4-byte characters; suffix / containment / case folding and the BYTE view (length, slicing at character boundaries) are bit-vector constraints, so Z3 decides '
          'every name of that length. Obligations: a name not ending in .sol, or ending in .t.sol in any letter case, is never read (so its bytes — including non-UTF-8 '
          'content — cannot matter or fail the run) and contributes nothing; a .sol name without .t.sol in its lower-case form is analysed; at depth 0..2.',
     note='Names that contain .t.sol without ending in it are left unconstrained (the property can be read either way). Counterexample names are created on disk and '
